@@ -175,6 +175,21 @@ CHECKS = {
    technique=TECH + "clang JSON AST of the generated reparameterised kernel -> guarded-command VCs (loop invariants, decode lemmas) -> z3; "
              "witnesses replayed on the compiled reparameterised and base models",
    design="DESIGN.md 6 C16"),
+ "C17": dict(engine="pyvc",
+   text="Cache coherence as contracts on the functions that implement it, composed by a z3 lemma: kerneldll.dll_path injective in "
+        "(tag, precision); make_dll names the library by id + tag_source(given source) + effective precision, compiles exactly the "
+        "converted given source, and a hit changes nothing (ghost file system, z3 strings); tag_source hashes the whole text; "
+        "_add_source/_kernels keep the input texts; generate.load_template returns the current text iff the file's mtime is newer "
+        "than the cached one and records (mtime, text); custom.need_reload is true iff some dependency is newer than the recorded "
+        "load time (1-3 dependencies) and load_custom_kernel_module then re-imports, records module file + existing C sources and "
+        "the newest of their mtimes; lemma: under a monotone clock these rules use the current text/module.",
+   note="CRC32 treated as collision free; 'every input text reaches the generated source' is a bounded marker check of make_source "
+        "over builtin models (every 4th in quick, all in thorough); one real 7-step edit/load/evaluate history (plugin with included "
+        "C file, precision change, revert; same and fresh process) is a bounded stand-in for the history quantifier; module import "
+        "machinery and direct_model's documented _model_cache are outside",
+   technique=TECH + "Python AST symbolic execution (z3 strings, ghost mtime/text functions, symbolic dict caches) -> z3; coherence "
+             "lemma in z3; replay on real files with controlled mtimes",
+   design="DESIGN.md 6 C17"),
  "C18": dict(engine="pyvc",
    text="Rely/guarantee contracts on ghost state: kerneldll.make_dll is executed symbolically (all sources, ids, cache directories, "
         "precisions; z3 strings) on a ghost file system in which every os/tempfile/compiler call is an event and a possible crash or "
